@@ -425,8 +425,11 @@ class SArr:
             data = []
             for s in subs:
                 data.extend(s.data)
-            return SArr((len(subs),) + sh, data)
-        return SArr((), [rat(x)])
+            return SArr((len(subs),) + sh, data, dtype="object" if any(s.dtype == "object" for s in subs) else "float")
+        try:
+            return SArr((), [rat(x)])
+        except SymAbort:
+            return SArr((), [x], dtype="object")       # a label (str) or another python object: object array
 
     @property
     def ndim(self):
@@ -484,8 +487,8 @@ class SArr:
             elif isinstance(k, SArr):
                 vals = []
                 for e in k.data:
-                    if not e.is_const():
-                        raise SymAbort("symbolic value used as an index")
+                    if not isinstance(e, Rat) or not e.is_const():
+                        raise NumpyRaise("IndexError", f"a data value ({e!r}) is used as an array position: positions must come from labels")
                     vals.append(int(e.const()))
                 per.append(("arr", (k.shape, [self._chk(v, n) for v in vals])))
             elif isinstance(k, (list, tuple)):
@@ -842,6 +845,9 @@ def einsum(spec, *ops):
                 raise NumpyRaise("ValueError", f"einsum: output subscript '{l}' not in inputs")
             out_letters.append(l)
     summed = [l for l in sizes if l not in out]
+    if len(ops) == 1 and not summed and ell_shape is None and sorted(out_letters) == sorted(named_ops[0]) and len(set(out_letters)) == len(out_letters):
+        # a one-operand einsum that only reorders axes returns a (non-contiguous) view, like np.transpose
+        return transpose(ops[0], [named_ops[0].index(l) for l in out_letters])
     oshape = tuple((ell_shape[l[1]] if isinstance(l, tuple) else sizes[l]) for l in out_letters)
     data = []
     sum_ranges = [range(sizes[l]) for l in summed]
